@@ -53,6 +53,7 @@ func TestVP_C32_Manager(t *testing.T) {
 		unregisteredAt := map[*Connection]bool{} // connections known to be refused or torn down
 		var violations []string
 		staleNotes := 0
+		notAgreed := 0
 		framesSeen := 0
 		var accepted []*Connection
 		var reconnectInCallback func() // set by the teardown step: the peer reconnects while the callback runs
@@ -297,7 +298,25 @@ func TestVP_C32_Manager(t *testing.T) {
 				mu.Lock()
 				reconnectInCallback = nil
 				mu.Unlock()
-				if cur != nil && cur != c {
+				// The live connection can also end for a reason of its own: after simultaneous
+				// dials the two ends may each have kept a different one of the two connections and
+				// closed the other (the choice is not symmetric), and that close arrives whenever
+				// it arrives. The teardown is judged only when the peer's own registration is the
+				// other end of the very link M has registered.
+				agreed := false
+				if cur != nil {
+					for _, x := range rems {
+						if x.id == c.RemoteID {
+							if rc := x.m.GetPeer(vpC32ID(0)); rc != nil && vpC32Link(rc.LocalAddr()) == vpC32Link(cur.LocalAddr()) {
+								agreed = true
+							}
+						}
+					}
+				}
+				if cur != nil && cur != c && !agreed {
+					notAgreed++
+				}
+				if cur != nil && cur != c && agreed {
 					if now := M.GetPeer(c.RemoteID); now != cur {
 						t.Fatalf("VPFAIL C32 tearing down a connection that was not the registered one removed the registration of the live connection to peer %x\n  history: %s", c.RemoteID[2], strings.Join(hist, "; "))
 					}
@@ -354,7 +373,16 @@ func TestVP_C32_Manager(t *testing.T) {
 			}
 		}
 		st.Count("connections-reported-disconnected-more-than-once(not judged)", rep)
+		st.Count("stale-teardowns-not-judged(the two ends had kept different connections)", notAgreed)
 		st.Count("notifications-delivered-while-a-replacement-was-registered(judged at agent level)", staleNotes)
 		st.Case(strings.Join(hist, "; "), nt)
 	})
+}
+
+// vpC32Link strips the end marker from an in-memory address ("<link>/dialer", "<link>/listener").
+func vpC32Link(addr string) string {
+	if i := strings.LastIndex(addr, "/"); i >= 0 {
+		return addr[:i]
+	}
+	return addr
 }
